@@ -69,7 +69,21 @@ def gen_case(seed, tier="quick"):
         elif k == "to":
             cands = [(m, g) for m, g in C.TO_SYN.items()]
             m, g = rng.choice(cands)
-            steps.append({"s": "to", "g": g, "m": m})
+            st = {"s": "to", "g": g, "m": m, "kwg": {}, "kwm": {}}
+            # impute the coordinates the source does not have, by keyword, in both spellings
+            lon_g = next((n for n in ("theta", "eta", "z") if n in g[5:]), None)
+            lon_m = next((n for n in ("theta", "eta", "pz") if n in m[5:]), None)
+            if dim < 3 and lon_g and rng.random() < 0.8:
+                v = C.value(rng, lon_g)
+                st["kwg"][lon_g] = v
+                st["kwm"][lon_m] = v
+            tmp_g = "tau" if g.endswith("tau") else ("t" if g.endswith("t") and lon_g else None)
+            tmp_m = "mass" if m.endswith("mass") else ("energy" if m.endswith("energy") else None)
+            if dim < 4 and tmp_g and tmp_m and rng.random() < 0.8:
+                v = C.value(rng, tmp_g)
+                st["kwg"][tmp_g] = v
+                st["kwm"][tmp_m] = v
+            steps.append(st)
         elif k == "op":
             name = rng.choice(("unit", "add", "subtract", "scale", "dot", "deltaphi", "rotateZ", "equal", "isclose", "neg2D", "to_Vector2D", "to_Vector3D", "to_Vector4D"))
             st = {"s": "op", "name": name}
@@ -328,8 +342,12 @@ def run_case(case, vector):
                     viol.append(_viol("synonym-differs-from-geometric", i, st, f"{m}: {_short(rm[1])} vs {g}: {_short(rmg[1])}", be))
         elif s == "to":
             g, m = st["g"], st["m"]
-            rg, rm = twin_call(i, lambda: getattr(Gv, g)(), lambda: getattr(Mv, m)())
-            _both(i, st, rg, rm, viol, be, f"{g}() vs {m}()")
+            kwg, kwm = st.get("kwg", {}), st.get("kwm", {})
+            rg, rm = twin_call(i, lambda: getattr(Gv, g)(**kwg), lambda: getattr(Mv, m)(**kwm))
+            if _both(i, st, rg, rm, viol, be, f"{g}({kwg}) vs {m}({kwm})") and i not in plan:
+                rmg = _call(lambda: getattr(Mv, g)(**kwg))
+                if rmg[0] != "ok" or not _exact(rmg[1], rm[1]):
+                    viol.append(_viol("to-synonym-differs", i, st, f"{m}({kwm}): {_short(rm[1])} vs {g}({kwg}): {_short(rmg[1])}", be))
         elif s == "op":
             name = st["name"]
             if name in ("add", "subtract", "dot", "deltaphi", "equal", "isclose"):
